@@ -145,6 +145,15 @@ func genC02Pair(t *rapid.T, col *collector, k1 bool) (c02Case, bool) {
 				}
 			}
 			vb = strings.Join(lb, "\n")
+		} else if rapid.IntRange(0, 9).Draw(t, "bompair") == 0 {
+			// the same text with and without a byte order mark / zero-width character at the very start or end
+			vb = genText(t, o)
+			mark := rapid.SampledFrom([]string{"\ufeff", "\u200b", "\ufeff\ufeff", "\x00"}).Draw(t, "mark")
+			if rapid.Bool().Draw(t, "markfront") {
+				va = mark + vb
+			} else {
+				va = vb + mark
+			}
 		} else if rapid.IntRange(0, 6).Draw(t, "utf8pair") == 0 {
 			va, vb = genUTF8Pair(t)
 		} else {
